@@ -255,6 +255,51 @@ class Terms(object):
                 out.append(_Inner(t, sub, call, host))
         return out
 
+    def built_map(self, t):
+        """How the mapping ``t`` is populated: a dict comprehension, or a
+        fresh dict that a loop stores into.  Returns [(iterable term, key
+        term, value term, condition term or None)]; None if not recognisable.
+        The condition is the test guarding the insertion (as one term)."""
+        inner = t[2] if t[0] == "new" else t
+        if inner[0] == "dictcomp" and len(inner[2]) == 1:
+            it, conds = inner[2][0]
+            cond = None
+            if len(conds) == 1:
+                cond = conds[0]
+            elif len(conds) > 1:
+                cond = ("and",) + tuple(conds)
+            return [(it, inner[1][1], inner[1][2], cond)]
+        if t[0] != "new" or not (
+                (inner[0] == "dict" and inner[1] == ()) or
+                (inner[0] == "call" and not inner[2] and not inner[3])):
+            return None
+        out = []
+        for n, st, base, key, val in stores(self):
+            if base != t:
+                continue
+            lp = st._parent
+            test = None
+            while lp is not None and not isinstance(lp, ast.For):
+                if isinstance(lp, ast.If) and test is None:
+                    test = lp
+                lp = lp._parent
+            if lp is None:
+                return None
+            head = self.cfg.loop_head[id(lp)]
+            cond = None
+            if test is not None and _inside_fn(test, lp):
+                try:
+                    tn = self.cfg.node_containing(test.test)
+                except AnalysisError:
+                    tn = n
+                in_body = any(_inside_fn(st, b_) or st is b_
+                              for b_ in test.body)
+                c = self.term(test.test, tn)
+                cond = c if in_body else (c[1] if c[0] == "not"
+                                          else ("not", c))
+            out.append((self.term(lp.iter, head), key, val, cond))
+        return out or None
+
     def search_loop(self):
         """If this function is a search loop -- ``for x in it: if c: return
         True`` followed by ``return False`` (or the dual) -- its value as
@@ -313,10 +358,7 @@ class Terms(object):
             it, conds = inner[2][0]
             out = []
             for c in conds:
-                pol = True
-                while c[0] == "not":
-                    c, pol = c[1], not pol
-                out.append((c, pol))
+                out.extend(split_cond(c, True))
             return [(it, inner[1], out)]
         if inner[0] == "call" and inner[1][0] == "global" and \
                 inner[1][1] in ("set", "list", "frozenset", "sorted") and \
@@ -999,6 +1041,10 @@ class Terms(object):
                 return (_ITEMS[f.attr], args[0])
             if f.attr == "get" and len(args) in (1, 2) and not kws:
                 return ("get", T(f.value, node, env)) + args
+        if isinstance(f, ast.Name) and f.id == "getattr" and \
+                len(args) == 2 and not kws and args[1][0] == "const" and \
+                isinstance(args[1][1], str):
+            return ("attr", args[0], args[1][1])
         ft = T(f, node, env)
         inl = self._inline(e, ft, args, kws, node)
         if inl is not None:
@@ -1271,8 +1317,14 @@ def subst_params(t, sub):
         return sub[t[1]]
     if t and t[0] == "const":
         return t
-    return tuple(subst_params(x, sub) if isinstance(x, tuple) else x
-                 for x in t)
+    out = tuple(subst_params(x, sub) if isinstance(x, tuple) else x
+                for x in t)
+    # getattr(x, "name") with a now-constant name is an attribute read
+    if out and out[0] == "call" and out[1] == ("global", "getattr") and \
+            len(out[2]) == 2 and not out[3] and out[2][1][0] == "const" and \
+            isinstance(out[2][1][1], str):
+        return ("attr", out[2][0], out[2][1][1])
+    return out
 
 
 # -- matching --------------------------------------------------------------------
@@ -1534,6 +1586,18 @@ def alternatives(t, _seen=None):
             if y not in out:
                 out.append(y)
         return out
+    return [t]
+
+
+def one_level(t):
+    """The immediate alternatives of a merge (not flattened further)."""
+    if t[0] == "mu":
+        mu = t[1]
+        return [mu.T._bind_term(mu.T.binds[i]) for i in mu.ids]
+    if t[0] == "phi":
+        return list(t[1:])
+    if t[0] == "ite":
+        return [t[2], t[3]]
     return [t]
 
 
